@@ -83,6 +83,9 @@ def run(ctx):
             msg = f'_resolve_parameters_ does not read parameter field(s) {sorted(a - c)}'
         ctx.ob('C10.a', key + (':fields' if not ok else ''), ok, msg, ci.mod.rel, line, construct=key)
 
+    holder_triple_rule(ctx, 'C10.i')
+    ctx.decided.append('C10.i classes whose constructor accepts symbolic-capable values implement the parameter protocols')
+
     # ------------------------------------------------------------------ C10.a2
     ctx.decided.append('C10.a2 every parameter-carrying field actually flows into a call that receives the resolver (reading a field only to copy it unchanged does not resolve it)')
     ctx.rule('C10.a2', 'applied resolver: every field read by _is_parameterized_ / _parameter_names_ reaches, in _resolve_parameters_ (through locals, loops, helpers and super()), '
@@ -328,3 +331,63 @@ def run(ctx):
 
     # ------------------------------------------------------------------ C01.b
     shared.sweep_prefix_rule(ctx, 'C01.b')
+
+
+# ---------------------------------------------------------------------------------------------------------------------
+# C10.i  A class whose constructor accepts a symbolic-capable value (annotated TParamVal / TParamValComplex) or a payload
+# of a type that itself implements the parameter protocols must implement them too (own or inherited) - otherwise a
+# symbol stored inside is invisible: is_parameterized() is False and resolve_parameters() hands the object back unchanged.
+HOLDER_EXEMPT = {
+    'cirq.devices.grid_device_metadata.GridDeviceMetadata': 'device description; durations are concrete values',
+    'cirq.experiments.z_phase_calibration.CalibrationTransformer': 'a transformer object, not a circuit element; its map holds fitted (numeric) gates',
+    'cirq.ops.common_gate_families.AnyIntegerPowerGateFamily': 'holds a gate *type*',
+    'cirq.ops.linear_combinations.ProjectorSum': 'projector coefficients are documented as complex numbers; no symbolic arithmetic is offered',
+    'cirq.ops.pauli_measurement_gate.PauliMeasurementGate': 'the observable is validated to have coefficient +1 or -1',
+    'cirq.ops.pauli_string.MutablePauliString': 'mutable work object; symbols are resolved on the frozen PauliString it converts to',
+    'cirq.ops.pauli_string_raw_types.PauliStringGateOperation': 'abstract base; PauliStringPhasor implements the protocols, the single-qubit subclass carries coefficient 1',
+}
+
+
+def holder_triple_rule(ctx, rid='C10.i'):
+    import re
+    from ..core import ClassInfo
+    repo = ctx.repo
+    ctx.rule(rid, 'holders of symbols take part in the protocols: every class (outside testing / contrib / interop) whose __init__ takes a parameter annotated TParamVal / TParamValComplex, or '
+             'annotated with a cirq class that implements _is_parameterized_ / _parameter_names_ / _resolve_parameters_ (LinearDict, PauliString, DensePauliString, ...), implements all '
+             'three itself (own or inherited), or is tabled with the reason no symbol can be stored', floor=28, style='COH')
+    SKIP_T = {'Qid', 'Gate', 'Operation', 'Circuit', 'FrozenCircuit', 'AbstractCircuit', 'Moment', 'ParamResolver', 'Sweep'}
+
+    def has_triple(c):
+        return all(repo.find_method(c, t) for t in TRIPLE)
+    for ci in sorted(repo.classes.values(), key=lambda c: c.qual):
+        if '.testing.' in ci.qual or '.contrib.' in ci.qual or ci.qual.startswith('cirq.protocols.') or '.interop.' in ci.qual:
+            continue
+        init = ci.methods.get('__init__')
+        if init is None:
+            continue
+        why = None
+        for a in init.args.args[1:] + init.args.kwonlyargs:
+            if a.annotation is None:
+                continue
+            ann = ast.unparse(a.annotation)
+            if 'TParamVal' in ann:
+                why = (a.arg, ann)
+                break
+            for nm in re.findall(r'[A-Za-z_][A-Za-z0-9_.]*', ann):
+                try:
+                    r = repo.resolve(ci.mod, nm)
+                except Exception:
+                    r = None
+                if isinstance(r, ClassInfo) and r.qual.startswith('cirq.') and r.name not in SKIP_T and has_triple(r):
+                    why = (a.arg, ann)
+                    break
+            if why:
+                break
+        if why is None:
+            continue
+        ex = HOLDER_EXEMPT.get(ci.qual)
+        ok = has_triple(ci) or ex is not None
+        miss = [t for t in TRIPLE if not repo.find_method(ci, t)]
+        ctx.ob(rid, f'{ci.qual}:holds:{why[0]}', ok, ('tabled: ' + ex) if (ex and miss) else '' if ok else
+               f'__init__ takes `{why[0]}: {why[1]}`, which can carry a sympy symbol, but the class has no {miss}: the symbol is invisible to is_parameterized / parameter_names and '
+               'resolve_parameters returns the object unchanged', ci.mod.rel, init.lineno)
